@@ -190,29 +190,15 @@ fn driver_part(s: &mut String, kind: &str, ety: usize, a: u64, sfx: &str) {
     }
 }
 
-/// numeric literals (decimal or hex, optional integer suffix) in a normalised token string
-fn literals(body: &str) -> Vec<u64> {
+/// integer literals of an accessor body that are not part of the accessed type (`[u16; 4]`)
+fn literals(body: &str, ety_rust: &str) -> Vec<u64> {
+    let mut in_type = synx::int_literals(ety_rust);
     let mut out = vec![];
-    let b: Vec<char> = body.chars().collect();
-    let mut i = 0;
-    while i < b.len() {
-        let prev_ident = i > 0 && (b[i - 1].is_alphanumeric() || b[i - 1] == '_');
-        if b[i].is_ascii_digit() && !prev_ident {
-            let mut j = i;
-            while j < b.len() && (b[j].is_alphanumeric() || b[j] == '_') {
-                j += 1;
-            }
-            let tok: String = b[i..j].iter().collect::<String>().replace('_', "");
-            let tok = tok.trim_end_matches("usize").trim_end_matches("u64").trim_end_matches("isize");
-            let v = if let Some(h) = tok.strip_prefix("0x") { u64::from_str_radix(h, 16).ok() } else { tok.parse().ok() };
-            // only literals that are cast to a pointer are addresses (`[u16; 4]` is not)
-            let rest: String = b[j..].iter().take(4).collect();
-            if let (Some(v), true) = (v, rest.starts_with(" as*")) {
-                out.push(v);
-            }
-            i = j;
+    for v in synx::int_literals(body) {
+        if let Some(p) = in_type.iter().position(|t| *t == v) {
+            in_type.remove(p);
         } else {
-            i += 1;
+            out.push(v as u64);
         }
     }
     out
@@ -243,16 +229,29 @@ fn judge_acc(fi: &synx::FileInfo, text: &str, kind: &str, ety: usize, addr: u64,
     if f.public != public {
         return Some(("accessor_visibility_differs".into(), format!("declared pub={public}, emitted pub={}", f.public)));
     }
-    let lits = literals(&f.body);
+    // the only number in the accessor (apart from array lengths of the accessed type) is the address,
+    // however it is spelled; the level of indirection is judged by executing the accessor (width 8) and
+    // by comparing the two widths' accessor bodies, which have no reason to differ
+    let lits = literals(&f.body, if kind.ends_with("singleton") { "" } else { ETYS[ety].1 });
     if lits != vec![addr] {
         return Some(("accessor_address_literal_differs".into(), format!("{kind}{sfx}: declared {addr:#x}, literals in the accessor body: {lits:x?}\n{}", f.body)));
     }
-    // struct singletons go through one indirection, enum singletons and extern values through none
-    let derefs_ptr_to_ptr = f.body.contains("*mut*mut Self") || f.body.contains("*mut *mut Self");
-    if kind.ends_with("struct_singleton") != derefs_ptr_to_ptr {
-        return Some(("accessor_indirection_differs".into(), f.body.clone()));
-    }
     None
+}
+
+/// the accessor bodies of a module, for the comparison across pointer widths
+fn accessor_bodies(text: &str) -> Vec<(String, String)> {
+    let Ok(fi) = synx::file_info(text) else { return vec![] };
+    let mut out = vec![];
+    for ty in ["S", "E", "S2", "E2"] {
+        if let Some(f) = fi.method(ty, "get") {
+            out.push((format!("{ty}::get"), f.body.clone()));
+        }
+    }
+    for f in fi.fns.iter().filter(|f| f.name.starts_with("get_")) {
+        out.push((f.name.clone(), f.body.clone()));
+    }
+    out
 }
 
 fn judge_exec(c: &Case, recs: &[Record]) -> Option<(String, String)> {
@@ -396,6 +395,7 @@ fn run_pairs(rep: &mut Report, only_i: Option<usize>) {
     };
     let mut xcases = vec![];
     let mut xown = vec![];
+    let mut bodies4: BTreeMap<usize, Vec<(String, String)>> = BTreeMap::new();
     for ps in [4usize, 8] {
         for &i in &idxs {
             let p = &all[i];
@@ -411,10 +411,18 @@ fn run_pairs(rep: &mut Report, only_i: Option<usize>) {
                 pipe::Verdict::Ok(b) if !b.files.contains_key("m.rs") => Some(("no_output_file_for_the_module".to_string(), format!("files: {:?}", b.files.keys().collect::<Vec<_>>()))),
                 pipe::Verdict::Ok(b) => {
                     let text = &b.files["m.rs"];
-                    let r = match synx::file_info(text) {
+                    let mut r = match synx::file_info(text) {
                         Err(e) => Some(("output_unreadable".to_string(), e)),
                         Ok(fi) => judge_acc(&fi, text, MENU[p.a].0, MENU[p.a].1, p.addr_a, p.pub_a, "").or_else(|| judge_acc(&fi, text, MENU[p.b].0, MENU[p.b].1, p.addr_b, p.pub_b, "2")),
                     };
+                    let bodies = accessor_bodies(text);
+                    if ps == 4 {
+                        bodies4.insert(i, bodies);
+                    } else if let Some(b4) = bodies4.get(&i) {
+                        if r.is_none() && *b4 != bodies {
+                            r = Some(("accessor_differs_between_pointer_widths".to_string(), format!("width 4: {b4:?}\nwidth 8: {bodies:?}")));
+                        }
+                    }
                     if r.is_none() && ps == 8 {
                         let mut files = b.files.clone();
                         let mut d = String::from("\n#[allow(warnings)]\npub mod __verif_exec {\n    use super::*;\n    pub unsafe fn run() {\n");
@@ -464,7 +472,7 @@ fn run_pairs(rep: &mut Report, only_i: Option<usize>) {
 pub fn run(tier: &str, only: Option<&Value>) -> i32 {
     let mut rep = Report::new("C15", tier);
     let all = cases();
-    rep.rule = "E1: #[singleton(A)] on a type and on an enum, and `extern gv: T` with #[address(A)] for T in {u32, *mut u8, [u16; 4], a user struct, pointer to it, an enum, u64}, A over five mappable absolute addresses and four unmappable ones (text only), in decimal / hex / underscore spelling, public and private; the attribute carrying the address preceded / followed by doc lines, in its own bracket, before and after the item's other attributes; extern values without address must be rejected. Oracle X: the data page is mapped at A on the host; struct singleton: null -> None, pointer to object 1 / 2 -> exactly that object; enum singleton: each variant stored at A is returned; extern value: the returned reference is at A. Oracle S: accessor type, visibility, single address literal, level of indirection. distinct = distinct (kind, address, spelling, type)".into();
+    rep.rule = "E1: #[singleton(A)] on a type and on an enum, and `extern gv: T` with #[address(A)] for T in {u32, *mut u8, [u16; 4], a user struct, pointer to it, an enum, u64}, A over five mappable absolute addresses and four unmappable ones (text only), in decimal / hex / underscore spelling, public and private; the attribute carrying the address preceded / followed by doc lines, in its own bracket, before and after the item's other attributes; extern values without address must be rejected. Oracle X: the data page is mapped at A on the host; struct singleton: null -> None, pointer to object 1 / 2 -> exactly that object; enum singleton: each variant stored at A is returned; extern value: the returned reference is at A. Oracle S: accessor type, visibility, the address as the accessor's only integer literal (by value, however spelled), accessor bodies identical at both widths (the indirection level itself is decided by executing them). distinct = distinct (kind, address, spelling, type)".into();
     let only_i = only.map(|l| l["index"].as_u64().unwrap_or(0) as usize);
     let only_space = only.map(|l| l["space"].as_str().unwrap_or("accessors").to_string());
     if tier == "thorough" && only.is_none() || only_space.as_deref() == Some("pairs") {
@@ -479,6 +487,7 @@ pub fn run(tier: &str, only: Option<&Value>) -> i32 {
     let mut xcases = vec![];
     let mut xown = vec![];
     let mut inputs: BTreeMap<usize, pipe::Input> = BTreeMap::new();
+    let mut bodies4: BTreeMap<usize, Vec<(String, String)>> = BTreeMap::new();
     for ps in [4usize, 8] {
         for &i in &idxs {
             let c = &all[i];
@@ -507,7 +516,15 @@ pub fn run(tier: &str, only: Option<&Value>) -> i32 {
                 }
                 (pipe::Verdict::Ok(b), _) if !b.files.contains_key("m.rs") => Some(("no_output_file_for_the_module".to_string(), format!("files: {:?}", b.files.keys().collect::<Vec<_>>()))),
                 (pipe::Verdict::Ok(b), _) => {
-                    let r = judge_text(c, &b.files["m.rs"]);
+                    let mut r = judge_text(c, &b.files["m.rs"]);
+                    let bodies = accessor_bodies(&b.files["m.rs"]);
+                    if ps == 4 {
+                        bodies4.insert(i, bodies);
+                    } else if let Some(b4) = bodies4.get(&i) {
+                        if r.is_none() && *b4 != bodies {
+                            r = Some(("accessor_differs_between_pointer_widths".to_string(), format!("width 4: {b4:?}\nwidth 8: {bodies:?}")));
+                        }
+                    }
                     if r.is_none() && c.exec && ps == 8 {
                         let mut files = b.files.clone();
                         files.get_mut("m.rs").unwrap().push_str(&driver(c));
